@@ -23,6 +23,7 @@ Post(p) ==
     /\ \A h \in HostSet : pool'[h] = p.pool[h]
     /\ timer' = p.timer
     /\ rid' = p.rid
+    /\ lc' = p.lc
 
 Req(h, kind) == CHOOSE r \in srv : r.h = h /\ r.kind = kind
 
@@ -34,6 +35,7 @@ TraceNext ==
     /\ UNCHANGED tid
     /\ LET e == Tr[l] IN
        /\ \/ e.e = "Start" /\ Start
+          \/ e.e = "SpecExec" /\ SpecExec
           \/ e.e = "AnsUnprepared" /\ (\E r \in srv : r.h = e.h /\ AnsUnprepared(r))
           \/ e.e = "AnsRows" /\ (\E r \in srv : r.h = e.h /\ AnsRows(r))
           \/ e.e = "AnsPrepare" /\ (\E r \in srv : r.h = e.h /\ AnsPrepare(r, e.resp))
